@@ -175,7 +175,7 @@ pub fn run(tier: Tier, seed: u64) -> Report {
     let r = run_pbt(
         "nearest-face",
         seed,
-        tier.pick(100_000, 5_000_000),
+        tier.pick(500_000, 15_000_000),
         || gen::point_spec([25, 5, 5, 2, 3, 25, 30, 5, 0]).boxed(),
         check_point,
         gen::point_json,
